@@ -252,13 +252,18 @@ class DynamicConstantProvider(DelegatingConstantProvider):
     def add_value_for_strings(self, value: str, name: str):
         """Entry point for the instrumented code. Add a value of a string.
 
+        The lookup functions call methods of the value and format it.  This must
+        only happen for a plain string: an instance of a subclass of ``str`` may
+        override these methods (or ``__format__``), and the module under test does
+        not call them at this point.
+
         Args:
             value: The value
             name: The string
         """
         # Might be a proxy.
         value = unwrap(value)
-        if isinstance(value, str) and name in self.STRING_FUNCTION_LOOKUP:
+        if type(value) is str and name in self.STRING_FUNCTION_LOOKUP:
             self.add_value(value)
             self.add_value(self.STRING_FUNCTION_LOOKUP[name](value))
 
